@@ -228,7 +228,7 @@ func runC05(c *Ctx) {
 			continue
 		}
 		for _, call := range core.Calls(fn) {
-			callee := call.Common.StaticCallee()
+			callee := core.Callee(call.Common)
 			if callee == nil || callee.Pkg == nil || callee.Pkg.Pkg.Path() != "sync/atomic" || len(call.Common.Args) == 0 {
 				continue
 			}
